@@ -6,7 +6,8 @@ import json, os, re, shutil, sys, glob
 
 pid, n, caught = sys.argv[1], sys.argv[2], sys.argv[3]
 note = " ".join(sys.argv[4:])
-w = f"/tmp/mut/{pid}.work"
+root = os.environ.get("MUT_ROOT", "/tmp/mut")
+w = f"{root}/{pid}.work"
 dst = f"/verif/seeded/{pid}-m{n}"
 os.makedirs(dst, exist_ok=True)
 shutil.copy(f"{w}/mutant{n}.diff", f"{dst}/patch.diff")
